@@ -4,7 +4,8 @@ import McpModel.Sessions.Bridge
 
 `modelTrace` skips an operation only when `replayOp` yields none.  `replayOp_total`: in every state related to
 the monitor's (hence in every state the replay reaches) `replayOp` yields an observation for every
-operation, except `postx` on a stateless endpoint (which has no meaning there and is never generated).
+operation in scope (`Op.inScope`: all but `postx` / `postb` / `body` on a stateless endpoint and `postb` without a
+session id, which have no meaning there and are never generated).
 So `monitor_accepts_model` speaks about one record per operation: `modelTrace_length`.
 -/
 namespace Sessions
@@ -22,8 +23,28 @@ theorem step_postBegin_some_isSome {s : State} (hst : s.cfg.stateless = false) (
     · right; left; exact ⟨_, _, _, rfl⟩
     · right; right; exact ⟨_, _, rfl⟩
 
+/-- The operations that have a meaning in a configuration: no `postx` on a stateless endpoint (no session is ever
+published there); a POST whose body arrives in pieces (`postb`, `body`) only on a stateful endpoint, and `postb` only
+with a session id (the creation path reads its body after the publication: not modelled apart).  The harness
+generates no others and answers `bad-op` to the latter. -/
+def Op.inScope (cfg : Cfg) : Op → Bool
+  | .postx _ _ => !cfg.stateless
+  | .postb ref _ => !cfg.stateless && ref != .absent
+  | .body _ _ => !cfg.stateless
+  | _ => true
+
+/-- the exclusions are needed: outside the scope the replay has no observation … -/
+example : replayOp (.init ⟨true, 100, true, false⟩) (.postx .anon .init) = none ∧
+    replayOp (.init ⟨true, 100, true, false⟩) (.postb (.s 1) .anon) = none ∧
+    replayOp (.init ⟨true, 100, true, false⟩) (.body 1 true) = none ∧
+    replayOp (.init ⟨false, 100, true, false⟩) (.postb .absent .anon) = none := by decide
+
+/-- … and the scope is not empty for any operation shape on a stateful endpoint -/
+example : Op.inScope ⟨false, 100, true, false⟩ (.postb (.s 1) (.u 1)) = true ∧ Op.inScope ⟨false, 100, true, false⟩ (.body 2 true) = true ∧
+    Op.inScope ⟨false, 100, true, false⟩ (.postx (.u 1) .init) = true := by decide
+
 theorem modelOp_total {cfg : Cfg} {d : RState} {m : Mon} (hs : SimAny cfg d m) (op : Op)
-    (hpx : cfg.stateless = true → ∀ u k, op ≠ .postx u k) : ∃ mo, modelOp d op = some mo := by
+    (hsc : op.inScope cfg = true) : ∃ mo, modelOp d op = some mo := by
   have hinv : Inv d.st := by
     rcases hs with ⟨_, hs⟩ | ⟨_, hs⟩
     · exact hs.inv
@@ -41,7 +62,9 @@ theorem modelOp_total {cfg : Cfg} {d : RState} {m : Mon} (hs : SimAny cfg d m) (
         simp only [modelOp, hsl, Bool.not_true, Bool.and_false, Bool.false_eq_true, if_false, step, if_true, stepStateless,
           hcf, postResp, hacc] <;>
         first | exact ⟨_, rfl⟩ | (split <;> exact ⟨_, rfl⟩)
-    | postx u kind => exact absurd rfl (hpx (by rw [← hcfg]; exact hsl) u kind)
+    | postx u kind => rw [← hcfg] at hsc; simp [Op.inScope, hsl] at hsc
+    | postb ref u => rw [← hcfg] at hsc; simp [Op.inScope, hsl] at hsc
+    | body n fin => rw [← hcfg] at hsc; simp [Op.inScope, hsl] at hsc
     | release k =>
       simp only [modelOp]
       split
@@ -141,29 +164,53 @@ theorem modelOp_total {cfg : Cfg} {d : RState} {m : Mon} (hs : SimAny cfg d m) (
       split
       · split <;> (try split) <;> exact ⟨_, rfl⟩
       · exact ⟨_, rfl⟩
+    | postb ref u =>
+      cases hsid : ref.sid d.st.next with
+      | none =>
+        cases ref with
+        | absent => simp [Op.inScope] at hsc
+        | s k => simp [Ref.sid] at hsid; split at hsid <;> cases hsid
+        | x n => simp [Ref.sid] at hsid
+      | some i =>
+        cases hl : lookup d.st.tbl i u.user with
+        | error c =>
+          simp only [modelOp, hsid, hsl, Bool.false_eq_true, if_false, step_postHead_err hsl hl]
+          exact ⟨_, rfl⟩
+        | ok e =>
+          simp only [modelOp, hsid, hsl, Bool.false_eq_true, if_false, step_postHead_ok hsl (inv_nodupIds hinv) hl]
+          exact ⟨_, rfl⟩
+    | body n fin =>
+      simp only [modelOp, hsl, Bool.false_eq_true, if_false]
+      split
+      · exact ⟨_, rfl⟩
+      · split
+        · exact ⟨_, rfl⟩
+        · split
+          · split <;> exact ⟨_, rfl⟩
+          · exact ⟨_, rfl⟩
 
 /-- **replayOp_total** -/
 theorem replayOp_total {cfg : Cfg} {d : RState} {m : Mon} (hs : SimAny cfg d m) (op : Op)
-    (hpx : cfg.stateless = true → ∀ u k, op ≠ .postx u k) : ∃ d' o, replayOp d op = some (d', o) := by
-  obtain ⟨mo, hmo⟩ := modelOp_total hs op hpx
+    (hsc : op.inScope cfg = true) : ∃ d' o, replayOp d op = some (d', o) := by
+  obtain ⟨mo, hmo⟩ := modelOp_total hs op hsc
   simp only [replayOp, hmo]
   exact ⟨_, _, rfl⟩
 
-/-- the model's trace has one record per operation (no `postx` on a stateless endpoint) -/
+/-- the model's trace has one record per operation in scope -/
 theorem modelTraceFrom_length {cfg : Cfg} : ∀ (ops : List Op) (d : RState) (m : Mon), SimAny cfg d m →
-    (cfg.stateless = true → ∀ op ∈ ops, ∀ u k, op ≠ .postx u k) →
+    (∀ op ∈ ops, op.inScope cfg = true) →
     (modelTraceFrom d ops).length = ops.length := by
   intro ops
   induction ops with
   | nil => intro d m _ _; rfl
   | cons op ops ih =>
     intro d m hs hpx
-    obtain ⟨d', o, hop⟩ := replayOp_total hs op (fun h => hpx h op List.mem_cons_self)
+    obtain ⟨d', o, hop⟩ := replayOp_total hs op (hpx op List.mem_cons_self)
     simp only [modelTraceFrom, hop, List.length_cons]
-    rw [ih d' _ (sim_step hs op hop).2 (fun h op' hop' => hpx h op' (List.mem_cons_of_mem _ hop'))]
+    rw [ih d' _ (sim_step hs op hop).2 (fun op' hop' => hpx op' (List.mem_cons_of_mem _ hop'))]
 
 theorem modelTrace_length (cfg : Cfg) (hfix : cfg.publishChecks = true) (ops : List Op)
-    (hpx : cfg.stateless = true → ∀ op ∈ ops, ∀ u k, op ≠ .postx u k) :
+    (hpx : ∀ op ∈ ops, op.inScope cfg = true) :
     (modelTrace cfg ops).length = ops.length :=
   modelTraceFrom_length ops (.init cfg) {} (sim_init cfg hfix) hpx
 
